@@ -70,6 +70,46 @@ def run(tier, seed):
                     samples.append({"query": q, "document": d, "find": [list(x) for x in base[1]]})
             elif base[0] == "raise":
                 nontrivial.add((q, "raise"))
+    # the string-taking entry points must follow the environment's CURRENT configuration exactly like compile() does
+    from jsonpath_rfc9535.function_extensions import ExpressionType as T, FilterFunction
+
+    class One(FilterFunction):
+        arg_types = [T.VALUE]
+        return_type = T.LOGICAL
+
+        def __call__(self, x):
+            return x == 1
+
+    class Two(FilterFunction):
+        arg_types = [T.VALUE]
+        return_type = T.VALUE
+
+        def __call__(self, x):
+            return 1
+
+    for q, doc, changes in (("$[?f(@.a)]", [{"a": 1}, {"a": 2}], ["register", "replace", "remove"]), ("$[5]", list(range(9)), ["limit"]), ("$[?f(@.a) == 1]", [{"a": 1}], ["register2", "remove"])):
+        e2 = jp.JSONPathEnvironment()
+        for ch in ["none"] + changes:
+            if ch == "register":
+                e2.function_extensions["f"] = One()
+            elif ch == "replace":
+                e2.function_extensions["f"] = Two()
+            elif ch == "register2":
+                e2.function_extensions["f"] = Two()
+            elif ch == "remove":
+                e2.function_extensions.pop("f", None)
+            elif ch == "limit":
+                e2.max_int_index = 3
+            evals += 1
+            ref = outcome(lambda: nodes_repr(e2.compile(q).find(doc)))
+            for name, f in (("env.find", lambda: nodes_repr(e2.find(q, doc))), ("env.finditer", lambda: nodes_repr(list(e2.finditer(q, doc)))),
+                            ("env.find_one", lambda: (lambda n: [(tuple(n.location), n.value)] if n is not None else [])(e2.find_one(q, doc)))):
+                o = outcome(f)
+                want = ref if name != "env.find_one" or ref[0] == "raise" else ("ok", ref[1][:1])
+                if o != want:
+                    col.add("c15-entry-points-disagree-after-reconfiguration", f"{name} disagrees with compile().find() after the environment was changed ({ch})",
+                            {"query": q, "document": doc, "change": ch}, want, o)
+            nontrivial.add((q, ch))
     return {"evaluations": evals * 11, "distinct_nontrivial": len(nontrivial),
             "rule": f"{len(QUERIES)} queries (valid incl. filters/functions, and invalid of every error class) x all documents <= {3 if tier == 'quick' else 4} nodes: "
                     "the 11 entry points must give the same nodelist / first node / exception class. Non-trivial = (query, document) with a non-empty result, or an invalid query.",
